@@ -455,8 +455,8 @@ Fixpoint reload (n : node) : option node :=
       | None => None
       end
   | NSearch cname fields attrs =>
-      if String.eqb cname "Drawer" then None     (* search.json of Drawer cannot be read back *)
-      else Some n
+      (* search.json of Drawer cannot be read back while its constructor passes number_of_cores twice *)
+      if String.eqb cname "Drawer" && negb drawer_json_readable then None else Some n
   end.
 
 (* ids and labels removed: what remains of a composition when creation order, internal ids and
